@@ -11,10 +11,13 @@
 package c05
 
 import (
+	"context"
 	"database/sql"
+	"database/sql/driver"
 	"encoding/json"
 	"errors"
 	"fmt"
+	"io"
 	"os"
 	"sort"
 	"strings"
@@ -94,6 +97,7 @@ type Owner struct {
 	Name      string
 	Val       int
 	UpdatedAt time.Time
+	Code      *string `gorm:"uniqueIndex"` // NULL or unique: a natural way for an INSERT/UPDATE to fail
 	CompanyID *uint
 	Company   *Company
 	Profile   *Profile
@@ -127,12 +131,14 @@ type hookCall struct {
 }
 
 type hookPlan struct {
-	n      int
-	failAt int // -1: no hook fails
-	audit  bool
-	rec    *recdrv.Recorder
-	log    []hookCall
-	fired  bool
+	n        int
+	failAt   int // -1: no hook fails
+	cancelAt int // -1: no hook cancels the context of the operation
+	cancel   context.CancelFunc
+	audit    bool
+	rec      *recdrv.Recorder
+	log      []hookCall
+	fired    bool
 }
 
 // plan is the plan of the run in progress (nil while templates are built).
@@ -149,6 +155,18 @@ func hook(tx *gorm.DB, model, name string) error {
 	if i == p.failAt {
 		p.fired = true
 		return errHook
+	}
+	if i == p.cancelAt {
+		// the context of the operation ends while the hook is busy; the hook
+		// itself succeeds. database/sql rolls the transaction back in the
+		// background: wait until it has done so, so that the outcome does not
+		// depend on scheduling.
+		p.fired = true
+		p.cancel()
+		for w := 0; w < 20000 && p.rec.OpenTx() != 0; w++ {
+			time.Sleep(20 * time.Microsecond)
+		}
+		return nil
 	}
 	if p.audit && model == "Owner" {
 		if err := tx.Exec("INSERT INTO audits (msg) VALUES (?)", model+"."+name).Error; err != nil {
@@ -267,6 +285,7 @@ type OwnerSpec struct {
 	ID      uint         `json:"id"`
 	Name    string       `json:"n"`
 	Val     int          `json:"v"`
+	Code    string       `json:"code,omitempty"`
 	Company *CompanySpec `json:"company,omitempty"`
 	Profile *ProfileSpec `json:"profile,omitempty"`
 	Items   []ItemSpec   `json:"items,omitempty"`
@@ -276,6 +295,10 @@ type OwnerSpec struct {
 
 func (s OwnerSpec) build() *Owner {
 	o := &Owner{ID: s.ID, Name: s.Name, Val: s.Val}
+	if s.Code != "" {
+		code := s.Code
+		o.Code = &code
+	}
 	if c := s.Company; c != nil {
 		o.Company = &Company{ID: c.ID, Name: c.Name}
 		if r := c.Region; r != nil {
@@ -341,6 +364,9 @@ type Op struct {
 	Kind        string      `json:"kind"`
 	NoReturning bool        `json:"noreturning,omitempty"` // dialector without RETURNING support
 	Audit       bool        `json:"audit,omitempty"`       // Owner hooks write an audit row through their handle
+	Ctx         bool        `json:"ctx,omitempty"`         // run on db.WithContext(cancellable context); hooks may cancel it
+	Collide     bool        `json:"collide,omitempty"`     // the last record carries the unique code of an existing owner: the operation fails by itself
+	Rot         int         `json:"rot,omitempty"`         // rotation of the injected error values over the fault positions
 	Ptrs        bool        `json:"ptrs,omitempty"`        // slice of pointers instead of values
 	Batch       int         `json:"batch,omitempty"`
 	Form        string      `json:"form,omitempty"`     // delete/update: struct | slice | where
@@ -368,6 +394,7 @@ const (
 	kCreateSlice   = "create-slice"
 	kCreateBatches = "create-in-batches"
 	kSave          = "save"
+	kSaveMissing   = "save-missing-row"
 	kSaveSlice     = "save-slice"
 	kUpdatesFull   = "updates-full-save-associations"
 	kUpdatesMap    = "updates-model-map"
@@ -375,7 +402,7 @@ const (
 	kDelete        = "delete"
 )
 
-var allKinds = []string{kCreate, kCreateSlice, kCreateBatches, kSave, kSaveSlice, kUpdatesFull, kUpdatesMap, kUpdateCol, kDelete, kDelete}
+var allKinds = []string{kCreate, kCreateSlice, kCreateBatches, kSave, kSaveMissing, kSaveSlice, kUpdatesFull, kUpdatesMap, kUpdateCol, kDelete, kDelete}
 
 func ownerSlice(specs []OwnerSpec) []Owner {
 	out := make([]Owner, len(specs))
@@ -412,7 +439,7 @@ func (op Op) exec(db *gorm.DB) *gorm.DB {
 		}
 		v := ownerSlice(op.Owners)
 		return db.CreateInBatches(&v, op.Batch)
-	case kSave:
+	case kSave, kSaveMissing:
 		return db.Save(op.Owners[0].build())
 	case kSaveSlice:
 		if op.Ptrs {
@@ -492,14 +519,15 @@ func schemaDDL() string {
 
 // content is a full copy of all tables.
 type content struct {
-	cols map[string][]string
-	rows map[string][][]interface{}
-	text string // canonical rendering (the "dump")
-	ids  map[string][]uint
+	cols  map[string][]string
+	rows  map[string][][]interface{}
+	text  string // canonical rendering (the "dump")
+	ids   map[string][]uint
+	codes map[uint]string // owners.id -> owners.code
 }
 
 func readContent(sqlDB *sql.DB) (*content, error) {
-	c := &content{cols: map[string][]string{}, rows: map[string][][]interface{}{}, ids: map[string][]uint{}}
+	c := &content{cols: map[string][]string{}, rows: map[string][][]interface{}{}, ids: map[string][]uint{}, codes: map[uint]string{}}
 	var sb strings.Builder
 	for _, t := range tables {
 		rows, err := sqlDB.Query("SELECT * FROM " + t.name + " ORDER BY " + t.order)
@@ -528,6 +556,13 @@ func readContent(sqlDB *sql.DB) (*content, error) {
 			if cols[0] == "id" {
 				if id, ok := vals[0].(int64); ok {
 					c.ids[t.name] = append(c.ids[t.name], uint(id))
+					if t.name == "owners" {
+						for i, col := range cols {
+							if code, ok := vals[i].(string); ok && col == "code" {
+								c.codes[uint(id)] = code
+							}
+						}
+					}
 				}
 			}
 			sb.WriteString("  ")
@@ -630,18 +665,54 @@ func freshDB(base *content, op Op) *testdb.DB {
 // ---- one run -----------------------------------------------------------------------------------
 
 type fault struct {
-	kind string // "" | "driver" | "hook"
+	kind string // "" | "driver" | "hook" | "cancel"
 	idx  int
+	err  namedErr // driver: the value the failing call returns
 }
 
 func (f fault) String() string {
 	switch f.kind {
 	case "driver":
-		return fmt.Sprintf("driver-call#%d", f.idx)
+		return fmt.Sprintf("driver-call#%d returns %s", f.idx, f.err.name)
 	case "hook":
-		return fmt.Sprintf("hook#%d", f.idx)
+		return fmt.Sprintf("hook#%d returns error", f.idx)
+	case "cancel":
+		return fmt.Sprintf("hook#%d cancels the context and returns nil", f.idx)
 	}
 	return "none"
+}
+
+// namedErr is one error VALUE a failing driver call returns. gorm must report
+// whatever the driver reports: no value is "harmless".
+type namedErr struct {
+	name string
+	err  error
+}
+
+// faultErrors rotate over the fault positions (every value at every COMMIT).
+// Not in the list: driver.ErrSkip (a database/sql protocol value) and
+// gorm.ErrInvalidTransaction (BeginTransaction documents it as "no transaction
+// support", a driver does not return it).
+var faultErrors = []namedErr{
+	{"sentinel", recdrv.ErrInjected},
+	{"sql.ErrTxDone", sql.ErrTxDone},
+	{"context.Canceled", context.Canceled},
+	{"context.DeadlineExceeded", context.DeadlineExceeded},
+	{"io.ErrUnexpectedEOF", io.ErrUnexpectedEOF},
+	{"sql.ErrNoRows", sql.ErrNoRows},
+	{"gorm.ErrRecordNotFound", gorm.ErrRecordNotFound},
+	{"wrapped(sql.ErrTxDone)", fmt.Errorf("c05 driver: %w", sql.ErrTxDone)},
+	{"wrapped(context.Canceled)", fmt.Errorf("c05 driver: %w", context.Canceled)},
+	{"wrapped(sentinel)", fmt.Errorf("c05 driver: %w", recdrv.ErrInjected)},
+}
+
+// commitOnlyErrors: driver.ErrBadConn is consumed by database/sql everywhere
+// else (BEGIN is retried on another connection, a statement inside a
+// transaction poisons it so that the later ROLLBACK error replaces it); at
+// COMMIT it is handed to the caller unchanged.
+var commitOnlyErrors = []namedErr{
+	{"driver.ErrBadConn", driver.ErrBadConn},
+	{"wrapped(driver.ErrBadConn)", fmt.Errorf("c05 driver: %w", driver.ErrBadConn)},
 }
 
 type runResult struct {
@@ -660,18 +731,35 @@ type runResult struct {
 func runOnce(base *content, op Op, f fault) runResult {
 	d := freshDB(base, op)
 	defer d.Close()
-	p := &hookPlan{failAt: -1, audit: op.Audit, rec: d.Rec}
-	if f.kind == "hook" {
+	p := &hookPlan{failAt: -1, cancelAt: -1, audit: op.Audit, rec: d.Rec}
+	switch f.kind {
+	case "hook":
 		p.failAt = f.idx
+	case "cancel":
+		p.cancelAt = f.idx
+	}
+	handle := d.DB
+	if op.Ctx {
+		ctx, cancel := context.WithCancel(context.Background())
+		defer cancel()
+		p.cancel = cancel
+		handle = d.DB.WithContext(ctx)
 	}
 	plan = p
 	if f.kind == "driver" {
-		d.Rec.SetFault(recdrv.FailNth(f.idx, recdrv.ErrInjected))
+		d.Rec.SetFault(recdrv.FailNth(f.idx, f.err.err))
 	} else {
 		d.Rec.SetFault(nil)
 	}
-	res := op.exec(d.DB)
+	res := op.exec(handle)
 	plan = nil
+	if f.kind == "cancel" {
+		// the background rollback of database/sql releases the connection
+		// shortly after the transaction is marked finished
+		for w := 0; w < 20000 && (d.Rec.OpenTx() != 0 || d.SQL.Stats().InUse != 0); w++ {
+			time.Sleep(20 * time.Microsecond)
+		}
+	}
 	var r runResult
 	r.err, r.rows = res.Error, res.RowsAffected
 	r.faultable = d.Rec.Faultable()
@@ -683,7 +771,7 @@ func runOnce(base *content, op Op, f fault) runResult {
 	r.fired = p.fired
 	if f.kind == "driver" {
 		for _, e := range r.events {
-			if e.Err == recdrv.ErrInjected {
+			if e.Err == f.err.err {
 				r.fired = true
 			}
 		}
@@ -760,6 +848,12 @@ type fataler interface {
 func checkCase(t fataler, c Case, base *content) {
 	desc := c.String()
 	op := c.Op
+	if op.Collide {
+		if familyOn("natural") {
+			checkNatural(t, c, base)
+		}
+		return
+	}
 	ref := runOnce(base, op, fault{})
 	if ref.err != nil {
 		t.Fatalf("C05 violated: the fault-free operation failed: %v\n  case: %s\n  driver calls:\n%s", ref.err, desc, eventLog(ref.events))
@@ -793,6 +887,93 @@ func checkCase(t fataler, c Case, base *content) {
 		}
 	}
 	multi := len(tablesTouched) >= 2
+	shapeList := opShapes(op, multi)
+	evid.AddExtra("operations", 1)
+	evid.AddExtra("driver_faults", int64(N))
+	evid.AddExtra("hook_faults", int64(H))
+
+	verify := func(f fault, r runResult, injected error, nt bool, posLabel string, more ...string) {
+		fdesc := fmt.Sprintf("%s fault=%s/%s", desc, f, posLabel)
+		evid.Case(fdesc, nt, nil, append(append(append([]string(nil), shapeList...), "fault:"+posLabel), more...)...)
+		where := fmt.Sprintf("\n  case: %s\n  fault: %s (%s) of N=%d driver calls, H=%d hook invocations\n  driver calls of the faulted run:\n%s  hooks of the faulted run: %v",
+			desc, f, posLabel, N, H, eventLog(r.events), hookNames(r.hooks))
+		if !r.fired {
+			t.Fatalf("harness: the planned fault was never reached (the operation is not deterministic)%s", where)
+		}
+		if r.err == nil {
+			t.Fatalf("C05 violated: a failing step was not reported: result.Error is nil (RowsAffected %d)%s", r.rows, where)
+		}
+		if !errors.Is(r.err, injected) {
+			t.Fatalf("C05 violated: result.Error does not wrap the injected failure: %q%s", r.err.Error(), where)
+		}
+		if r.openTx != 0 || r.inUse != 0 {
+			t.Fatalf("C05 violated: after the failed operation %d transaction(s) still open, %d connection(s) still checked out%s", r.openTx, r.inUse, where)
+		}
+		if r.dumpErr != nil {
+			t.Fatalf("C05 violated: tables unreadable after the failed operation: %v%s", r.dumpErr, where)
+		}
+		if r.dump != base.text {
+			t.Fatalf("C05 violated: the operation failed (%v) but was partly applied%s\n  tables before:\n%s  tables after:\n%s", r.err, where, indent(base.text), indent(r.dump))
+		}
+	}
+
+	for k := 0; k < N && familyOn("driver"); k++ {
+		// the value the failing call returns rotates over the positions; a
+		// COMMIT is tried with every value
+		vals := []namedErr{faultErrors[(k+op.Rot)%len(faultErrors)]}
+		if labels[k] == "commit" {
+			vals = append(append([]namedErr(nil), faultErrors...), commitOnlyErrors...)
+		}
+		for _, v := range vals {
+			f := fault{kind: "driver", idx: k, err: v}
+			r := runOnce(base, op, f)
+			verify(f, r, v.err, multi && firstWrite >= 0 && k > firstWrite, "drv:"+labels[k], "err:"+v.name)
+		}
+	}
+	for h := 0; h < H && familyOn("hook"); h++ {
+		f := fault{kind: "hook", idx: h}
+		r := runOnce(base, op, f)
+		verify(f, r, errHook, multi && firstWrite >= 0 && ref.hooks[h].drvBefore > firstWrite, "hook:"+ref.hooks[h].name)
+	}
+	if !op.Ctx || !familyOn("cancel") {
+		return
+	}
+	// context-bound handle: every hook invocation in turn cancels the context of
+	// the operation and returns nil. The operation may then complete (stored,
+	// nil error) or fail (nothing stored, error) - never "nothing stored, nil".
+	evid.AddExtra("cancel_faults", int64(H))
+	for h := 0; h < H; h++ {
+		f := fault{kind: "cancel", idx: h}
+		r := runOnce(base, op, f)
+		posLabel := "cancel:" + ref.hooks[h].name
+		evid.Case(fmt.Sprintf("%s fault=%s/%s", desc, f, posLabel), multi && firstWrite >= 0 && ref.hooks[h].drvBefore > firstWrite, nil,
+			append(append([]string(nil), shapeList...), "fault:"+posLabel)...)
+		where := fmt.Sprintf("\n  case: %s\n  fault: %s (%s) of N=%d driver calls, H=%d hook invocations\n  driver calls of the run:\n%s  hooks of the run: %v",
+			desc, f, posLabel, N, H, eventLog(r.events), hookNames(r.hooks))
+		if !r.fired {
+			t.Fatalf("harness: the planned hook invocation was never reached (the operation is not deterministic)%s", where)
+		}
+		if r.openTx != 0 || r.inUse != 0 {
+			t.Fatalf("C05 violated: after the operation whose context was cancelled %d transaction(s) still open, %d connection(s) still checked out (result.Error %v)%s", r.openTx, r.inUse, r.err, where)
+		}
+		if r.dumpErr != nil {
+			t.Fatalf("C05 violated: tables unreadable after the operation whose context was cancelled: %v%s", r.dumpErr, where)
+		}
+		switch {
+		case r.err == nil && r.dump == ref.dump:
+			// completed in spite of the cancellation: allowed
+		case r.err == nil && r.dump == base.text:
+			t.Fatalf("C05 violated: a failing step was not reported: the context of the operation ended inside a hook, nothing was stored, and result.Error is nil (RowsAffected %d)%s", r.rows, where)
+		case r.err == nil:
+			t.Fatalf("C05 violated: result.Error is nil but the operation was only partly applied after its context ended inside a hook%s\n  tables before:\n%s  tables after:\n%s", where, indent(base.text), indent(r.dump))
+		case r.dump != base.text:
+			t.Fatalf("C05 violated: the operation failed (%v) but was partly applied%s\n  tables before:\n%s  tables after:\n%s", r.err, where, indent(base.text), indent(r.dump))
+		}
+	}
+}
+
+// opShapes lists the class labels of an operation.
+func opShapes(op Op, multi bool) []string {
 	shape := map[string]bool{"op:" + op.Kind: true}
 	for _, o := range op.Owners {
 		o.shapes(shape)
@@ -804,6 +985,9 @@ func checkCase(t fataler, c Case, base *content) {
 	}
 	if op.Audit {
 		shape["hooks:write-audit-rows"] = true
+	}
+	if op.Ctx {
+		shape["handle:with-context"] = true
 	}
 	if op.Kind == kDelete {
 		if len(op.Select) == 0 {
@@ -830,45 +1014,85 @@ func checkCase(t fataler, c Case, base *content) {
 		shapeList = append(shapeList, k)
 	}
 	sort.Strings(shapeList)
+	return shapeList
+}
+
+// checkNatural handles operations that fail by themselves: the last record
+// carries the unique code of an existing owner, so its INSERT/UPDATE violates
+// the unique index. No fault is injected; the operation must report the
+// constraint error, apply nothing (association rows written before the failing
+// statement, earlier batches) and finish its transaction.
+func checkNatural(t fataler, c Case, base *content) {
+	desc := c.String()
+	r := runOnce(base, c.Op, fault{})
+	fe := faultableEvents(r.events)
+	tablesTouched := map[string]bool{}
+	firstWrite, failedAt := -1, -1
+	failLabel := ""
+	// the failing statement is the last write the operation issued (with
+	// RETURNING the driver reports the violation while the rows are read, so
+	// the recorded call itself carries no error)
+	for i, e := range fe {
+		l, tb, w := stmtLabel(e)
+		if w {
+			tablesTouched[tb] = true
+			failedAt, failLabel = i, l
+			if firstWrite < 0 {
+				firstWrite = i
+			}
+		}
+	}
+	multi := len(tablesTouched) >= 2
+	where := fmt.Sprintf("\n  case: %s\n  driver calls:\n%s  hooks: %v", desc, eventLog(r.events), hookNames(r.hooks))
+	last := c.Op.Owners[len(c.Op.Owners)-1]
+	collides := false
+	for id, code := range base.codes {
+		if code == last.Code {
+			collides = true
+			for _, o := range c.Op.Owners {
+				if o.ID == id {
+					collides = false
+				}
+			}
+		}
+	}
+	if !collides || failedAt < 0 || !strings.HasSuffix(failLabel, ":owners") {
+		t.Fatalf("harness: the generated record does not collide with an existing unique code%s", where)
+	}
 	evid.AddExtra("operations", 1)
-	evid.AddExtra("driver_faults", int64(N))
-	evid.AddExtra("hook_faults", int64(H))
+	evid.AddExtra("natural_failures", 1)
+	evid.Case(desc+" fault=none/natural:unique-collision", multi && firstWrite >= 0 && failedAt > firstWrite, nil,
+		append(opShapes(c.Op, multi), "fault:natural:unique-collision:"+failLabel)...)
+	if r.err == nil {
+		t.Fatalf("C05 violated: a failing step was not reported: the last record carries the unique code %q of another owner (its INSERT/UPDATE violates the unique index) but result.Error is nil (RowsAffected %d)%s\n  tables before:\n%s  tables after:\n%s", last.Code, r.rows, where, indent(base.text), indent(r.dump))
+	}
+	if !strings.Contains(r.err.Error(), "UNIQUE constraint failed") {
+		t.Fatalf("C05 violated: result.Error does not carry the constraint violation of the failing statement: %q%s", r.err.Error(), where)
+	}
+	if r.openTx != 0 || r.inUse != 0 {
+		t.Fatalf("C05 violated: after the failed operation %d transaction(s) still open, %d connection(s) still checked out%s", r.openTx, r.inUse, where)
+	}
+	if r.dumpErr != nil {
+		t.Fatalf("C05 violated: tables unreadable after the failed operation: %v%s", r.dumpErr, where)
+	}
+	if r.dump != base.text {
+		t.Fatalf("C05 violated: the operation failed (%v) but was partly applied%s\n  tables before:\n%s  tables after:\n%s", r.err, where, indent(base.text), indent(r.dump))
+	}
+}
 
-	verify := func(f fault, r runResult, injected error, nt bool, posLabel string) {
-		fdesc := fmt.Sprintf("%s fault=%s/%s", desc, f, posLabel)
-		evid.Case(fdesc, nt, nil, append(append([]string(nil), shapeList...), "fault:"+posLabel)...)
-		where := fmt.Sprintf("\n  case: %s\n  fault: %s (%s) of N=%d driver calls, H=%d hook invocations\n  driver calls of the faulted run:\n%s  hooks of the faulted run: %v",
-			desc, f, posLabel, N, H, eventLog(r.events), hookNames(r.hooks))
-		if !r.fired {
-			t.Fatalf("harness: the planned fault was never reached (the operation is not deterministic)%s", where)
-		}
-		if r.err == nil {
-			t.Fatalf("C05 violated: a failing step was not reported: result.Error is nil (RowsAffected %d)%s", r.rows, where)
-		}
-		if !errors.Is(r.err, injected) {
-			t.Fatalf("C05 violated: result.Error does not wrap the injected failure: %q%s", r.err.Error(), where)
-		}
-		if r.openTx != 0 || r.inUse != 0 {
-			t.Fatalf("C05 violated: after the failed operation %d transaction(s) still open, %d connection(s) still checked out%s", r.openTx, r.inUse, where)
-		}
-		if r.dumpErr != nil {
-			t.Fatalf("C05 violated: tables unreadable after the failed operation: %v%s", r.dumpErr, where)
-		}
-		if r.dump != base.text {
-			t.Fatalf("C05 violated: the operation failed (%v) but was partly applied%s\n  tables before:\n%s  tables after:\n%s", r.err, where, indent(base.text), indent(r.dump))
+// familyOn: development aid (sensitivity experiments) - VERIF_C05_FAULTS limits
+// the fault families that are run (driver,hook,cancel,natural); unset = all.
+func familyOn(name string) bool {
+	v := os.Getenv("VERIF_C05_FAULTS")
+	if v == "" {
+		return true
+	}
+	for _, f := range strings.Split(v, ",") {
+		if f == name {
+			return true
 		}
 	}
-
-	for k := 0; k < N; k++ {
-		f := fault{"driver", k}
-		r := runOnce(base, op, f)
-		verify(f, r, recdrv.ErrInjected, multi && firstWrite >= 0 && k > firstWrite, "drv:"+labels[k])
-	}
-	for h := 0; h < H; h++ {
-		f := fault{"hook", h}
-		r := runOnce(base, op, f)
-		verify(f, r, errHook, multi && firstWrite >= 0 && ref.hooks[h].drvBefore > firstWrite, "hook:"+ref.hooks[h].name)
-	}
+	return false
 }
 
 func hookNames(h []hookCall) []string {
@@ -1030,7 +1254,9 @@ func drawInit(t *rapid.T, minOwners int) InitSpec {
 		in.Tags = append(in.Tags, TagSpec{Name: "tg-" + nameGen.Draw(t, "init-tag")})
 	}
 	for i, n := 0, rapid.IntRange(minOwners, 3).Draw(t, "init-owners"); i < n; i++ {
-		in.Owners = append(in.Owners, drawOwner(t, nil, 0, true))
+		o := drawOwner(t, nil, 0, true)
+		o.Code = fmt.Sprintf("k%d", i+1) // every initial owner holds a unique code
+		in.Owners = append(in.Owners, o)
 	}
 	return in
 }
@@ -1066,7 +1292,7 @@ func drawCase(t *rapid.T) (Case, *content) {
 	kind := rapid.SampledFrom(kinds()).Draw(t, "kind")
 	minOwners := 0
 	switch kind {
-	case kSave, kUpdatesFull, kUpdatesMap, kUpdateCol, kDelete:
+	case kSave, kSaveMissing, kUpdatesFull, kUpdatesMap, kUpdateCol, kDelete:
 		minOwners = 1
 	}
 	in := drawInit(t, minOwners)
@@ -1079,6 +1305,8 @@ func drawCase(t *rapid.T) (Case, *content) {
 	op := Op{Kind: kind}
 	op.NoReturning = rapid.IntRange(0, 3).Draw(t, "no-returning") == 0
 	op.Audit = rapid.IntRange(0, 3).Draw(t, "audit") == 0
+	op.Ctx = rapid.IntRange(0, 2).Draw(t, "with-context") == 0
+	op.Rot = rapid.IntRange(0, len(faultErrors)-1).Draw(t, "error-rotation")
 	switch kind {
 	case kCreate:
 		op.Owners = []OwnerSpec{drawOwner(t, ids, ids.owners.draw(t, "owner-id", false, true), false)}
@@ -1107,6 +1335,12 @@ func drawCase(t *rapid.T) (Case, *content) {
 			id = 900
 		}
 		op.Owners = []OwnerSpec{drawOwner(t, ids, id, false)}
+	case kSaveMissing:
+		// key set, no such row, no associations, hooks do not write: Save's
+		// UPDATE matches nothing (and changes nothing), then the insert fallback
+		// runs as a second pipeline
+		op.Audit = false
+		op.Owners = []OwnerSpec{{ID: 900, Name: "ow-" + nameGen.Draw(t, "owner-name"), Val: rapid.IntRange(1, 9).Draw(t, "val")}}
 	case kSaveSlice:
 		n := rapid.IntRange(1, 3).Draw(t, "owners")
 		for i := 0; i < n; i++ {
@@ -1135,6 +1369,32 @@ func drawCase(t *rapid.T) (Case, *content) {
 		op.Select = rapid.SampledFrom(deleteSelects).Draw(t, "select")
 		op.Unscoped = rapid.IntRange(0, 3).Draw(t, "unscoped") == 0
 	}
+	// natural failure: the last record takes the unique code of an existing
+	// owner other than itself
+	switch kind {
+	case kCreate, kCreateSlice, kCreateBatches, kSave, kSaveMissing, kSaveSlice, kUpdatesFull:
+		last := &op.Owners[len(op.Owners)-1]
+		// ... and not rewritten by the operation itself (a Save of a slice
+		// upserts its earlier elements, which clears their code)
+		touched := map[uint]bool{}
+		for _, o := range op.Owners {
+			touched[o.ID] = true
+		}
+		var codes []string
+		for _, id := range base.ids["owners"] {
+			if !touched[id] && base.codes[id] != "" {
+				codes = append(codes, base.codes[id])
+			}
+		}
+		want := rapid.IntRange(0, 4).Draw(t, "collide") == 0
+		if kind == kSaveMissing {
+			want = rapid.IntRange(0, 2).Draw(t, "collide-missing") == 0
+		}
+		if want && len(codes) > 0 {
+			op.Collide = true
+			last.Code = rapid.SampledFrom(codes).Draw(t, "collide-code")
+		}
+	}
 	return Case{Init: in, Op: op}, base
 }
 
@@ -1146,6 +1406,9 @@ const rule = "C05: rapid draws an initial database (0-3 owner graphs, loose comp
 	"and its record graph (owner with belongs-to -> belongs-to, has-one, has-many -> has-many, many-to-many, polymorphic has-many; keys generated, existing or new explicit; <=3 levels, <=4 children; " +
 	"dialector with or without RETURNING; hooks optionally writing audit rows). The operation runs fault-free once (N faultable driver calls, H hook invocations; must succeed and change the database); " +
 	"then EVERY k<N (k-th driver call fails: BEGIN, each INSERT/UPDATE/DELETE, COMMIT) and EVERY h<H (h-th hook invocation returns an error) is run from the identical initial database. " +
+	"The value a failing driver call returns rotates over {sentinel, sql.ErrTxDone, context.Canceled, context.DeadlineExceeded, io.ErrUnexpectedEOF, sql.ErrNoRows, gorm.ErrRecordNotFound and fmt.Errorf wrappers}; every COMMIT is tried with every value plus driver.ErrBadConn. " +
+	"Operations on a db.WithContext handle additionally run once per hook invocation with that hook cancelling the context and returning nil (outcome must be stored+nil or nothing stored+error). " +
+	"One case in five of the eligible kinds fails by itself instead (unique-index collision of the last record, no fault injected; must report the constraint error and apply nothing). " +
 	"One evaluation = one faulted run. Non-trivial = the operation writes >=2 tables and the fault lands after the first write statement succeeded. " +
 	"Distinct = initial content + operation + record graph + fault position."
 
